@@ -61,7 +61,10 @@ def match_stream(ctx, family):
     slow = sum(1 for x in names if 'slow=true' in x)
     ctx.cov['evaluations'] += n
     ctx.cov['traces_validated_against_impl'] += n - len(mism)
+    stats = open(d + '/oracle_stats.txt').read().strip() if os.path.exists(d + '/oracle_stats.txt') else ''
     ctx.cov['streams']['match-model-' + family] = dict(cases=n, nontrivial=nt, mismatches=len(mism), deadline_sensitive_diffs=slow)
+    ctx.assumptions.append('go-diff oracle: every recorded script checked to be a valid edit script between span and document (D1); '
+                           + stats + ' (scripts with an empty entry fall outside the no-empty-entry hypothesis D3 of the trimming theorem)')
     if n:
         k = min(n - 1, 1 + ctx.seed % 7)
         ctx.cov['samples'].append({'stream': 'match-model', 'case': names[k], 'impl': impl[k][:300]})
